@@ -209,6 +209,12 @@ func allSites(nops int, storage string) []faultSite {
 			for _, code := range []string{"plain", "unavailable"} {
 				out = append(out, faultSite{op, vlib.FaultSpec{Point: p, Code: code}})
 			}
+			if p == vlib.PWriteOps || p == vlib.PWriteGet {
+				// failed reads that LOOK like "nothing there": they are failures all the same
+				for _, code := range []string{"enoent", "norows", "eof"} {
+					out = append(out, faultSite{op, vlib.FaultSpec{Point: p, Code: code}})
+				}
+			}
 		}
 		if storage == "sql" {
 			for _, p := range []string{vlib.DBegin, vlib.DQuery, vlib.DRowsNext, vlib.DExec, vlib.DCommit, vlib.DRollback} {
